@@ -126,6 +126,25 @@ func runC14(t *testing.T, tp *simrt.Tape, keepTrace bool) hx.Result {
 	nCommits := tp.GenRange(2, 6)
 	counter := 0
 	var contents []string
+	if len(branches) == 5 {
+		// all branches start at the root commit (otherwise a branch created later
+		// inherits the files of the branch it is created from)
+		for _, b := range branches {
+			g.checkout(b)
+		}
+	}
+	if len(branches) == 5 && tp.Gen(2) == 0 {
+		// (path, content) pairs on overlapping branch subsets: the branch list of a
+		// document is built up branch by branch while the trees are walked
+		for i, subset := range [][]int{{0, 1, 2, 3}, {0, 1, 2, 4}, {1, 3, 4}} {
+			p := []string{"shared/x.txt", "shared/y.txt", "shared/z.txt"}[i]
+			c := fmt.Sprintf("on branches %v\nneedle\n", subset)
+			for _, bi := range subset {
+				g.commit(branches[bi], []gFileOp{{kind: "write", path: p, content: c}})
+			}
+			history = append(history, fmt.Sprintf("write %s on branches %v", p, subset))
+		}
+	}
 	for i := 0; i < nCommits; i++ {
 		b := branches[tp.Gen(len(branches))]
 		var ops []gFileOp
